@@ -22,7 +22,7 @@ def one_case(rng, tier):
 
 
 def generate(rng, tier):
-    n = 1200 if tier == "quick" else 25000
+    n = 3000 if tier == "quick" else 30000
     cases = [one_case(rng, tier) for _ in range(n)]
     info = {"rule": "random and degenerate terms; iter_derivatives (ids in order), try_compile at n in {0..6,8,12,1000} (so k-1,k,k+1 are hit for small closures), closure of the yielded set under char_derivative, compile; non-trivial = at least one operator",
             "distribution": {"cases": n}}
